@@ -55,7 +55,6 @@ __CPROVER_ensures(!(num_values != 0 && __CPROVER_old(src_buffer->pos_) < src_buf
 __CPROVER_assigns(ghost_dispatched_bits, src_buffer->pos_);
 
 /* ------------------------------------------------------------------ the symbol loops over a ghost symbol decoder */
-struct GSD { int created; int started; int ended; uint32_t num_symbols; uint32_t decoded; };
 #define GSD_SYMBOL(k) ((uint32_t)(k) ^ 0x5a5a5a5au)        /* the k-th symbol of the ghost stream: any fixed injective function of k */
 int ghost_bits_mode; uint32_t ghost_bits_read;
 void GSD_ctor(struct GSD *d) __CPROVER_ensures(d->created == 0 && d->started == 0 && d->ended == 0 && d->decoded == 0) __CPROVER_assigns(*d);
